@@ -16,6 +16,7 @@ import TzVerif.Proofs.SearchRule
 import TzVerif.Proofs.SpecGaps
 import TzVerif.Proofs.SrcEqFind
 import TzVerif.Proofs.SrcEqList
+import TzVerif.Generated.StableC06   -- per run: the current translation (SrcNow) equals the baseline (Src) these theorems are about
 
 namespace TzVerif.C06
 open TzVerif.Model TzVerif.Proofs
